@@ -15,10 +15,15 @@ from pyxel.detectors import Detector
 def load_detector(detector: Detector, filename: str | Path) -> None:
     """Load a new detector from a file.
 
+    The data containers (scene, photon, charge, pixel, signal, image, phase and data)
+    of the current detector are replaced by those of the detector stored in ``filename``.
+
     Raises
     ------
     TypeError
         If the loaded detector has not the same type of the current detector.
+    ValueError
+        If the loaded detector has not the same shape as the current detector.
     """
     new_detector = Detector.load(filename)
 
@@ -29,7 +34,25 @@ def load_detector(detector: Detector, filename: str | Path) -> None:
             f" '{type(detector).__name__}', expected '{type(new_detector).__name__}'"
         )
 
-    detector = new_detector
+    if detector.geometry.shape != new_detector.geometry.shape:
+        raise ValueError(
+            f"Wrong detector shape from 'filename':'{filename}'. Got shape:"
+            f" {new_detector.geometry.shape}, expected {detector.geometry.shape}"
+        )
+
+    # Replace the data containers of the running detector by the loaded ones
+    for name in (
+        "_scene",
+        "_photon",
+        "_charge",
+        "_pixel",
+        "_signal",
+        "_image",
+        "_phase",
+        "_data",
+    ):
+        if hasattr(new_detector, name):
+            setattr(detector, name, getattr(new_detector, name))
 
 
 def save_detector(detector: Detector, filename: str | Path) -> None:
